@@ -51,7 +51,7 @@ def replay_print_target(obl, inputs, job, work):
     build = build_native(work)
     path = os.path.join(work, "replay_%s.bbc" % job.name)
     open(path, "wb").write(prog)
-    cmd = [os.path.join(build, "basic", "bbcbasic_to_text"), "--dialect=" + DIALECT_NAMES[d], path]
+    cmd = [os.path.join(build, "basic", "bbcbasic_to_text"), "--listo=0", "--dialect=" + DIALECT_NAMES[d], path]
     r = subprocess.run(cmd, capture_output=True, timeout=60)
     out = r.stdout.decode("latin-1")
     m = re.match(r"\s*10(\d+)\s*$", out)
@@ -82,15 +82,17 @@ def replay_selector(obl, inputs, job, work):
 
 
 def replay_dump_get_arg(obl, inputs, job, work):
-    """C04: dump-sector must refuse a sector number outside 0..S-1 (S = 10 on the test image)."""
+    """C04: dump-sector must refuse a sector number outside 0..S-1 (S = 10 on the test image) with its range diagnostic,
+    and must not refuse one inside."""
     n = _num(inputs, "n", "some_.val")
     if n is None:
         return {"reproduced": False, "why": "counterexample gives no argument value"}
     build = build_native(work)
-    cmd = [os.path.join(build, "dfs", "dfs"), "--file", _test_image(work), "dump-sector", "0", "1", "--", str(n)]
-    cmd = [c for c in cmd if c != "--"]          # dfs has no "--" separator for command arguments
+    cmd = [os.path.join(build, "dfs", "dfs"), "--file", _test_image(work), "dump-sector", "0", "0", str(n)]
     r = subprocess.run(cmd, capture_output=True, timeout=60)
+    err = r.stderr.decode("latin-1")
+    refused = "should be between" in err or "should not" in err
     should_accept = 0 <= n <= 9
-    bad = (r.returncode == 0) != should_accept or r.returncode not in (0, 1)
-    return {"reproduced": bad, "cmd": " ".join(cmd), "expected": "accepted (exit 0) exactly for 0..9, otherwise exit 1 with a diagnostic",
-            "observed": {"exit": r.returncode, "stderr": r.stderr.decode("latin-1")[:300], "stdout": r.stdout.decode("latin-1")[:120]}}
+    bad = (refused == should_accept) or r.returncode not in (0, 1) or (not should_accept and r.returncode == 0)
+    return {"reproduced": bad, "cmd": " ".join(cmd), "expected": "no range diagnostic exactly for 0..9; otherwise exit 1 with the diagnostic",
+            "observed": {"exit": r.returncode, "stderr": err[:300], "stdout": r.stdout.decode("latin-1")[:120]}}
